@@ -25,7 +25,8 @@ from .. import impl
 
 PID = 'C03'
 GEN_KW = {'n_cells': 9, 'features': ['names', 'array'], 'case_titles': True, 'overlaps': True,
-          'blockranges': True, 'dense': True, 'twoblocks': True}
+          'blockranges': True, 'dense': True, 'twoblocks': True,
+          'sparseinput': True}
 # C03's own workbooks also use whole-column references (SUM(A:A)); C07 / C08 share GEN_KW
 OWN_KW = dict(GEN_KW, features=['names', 'array', 'wholecol'])
 
@@ -174,6 +175,9 @@ def main():
             {'path': 'file', 'order': 2, 'spell': 2, 'qualify': 'min'},
             {'path': 'file', 'order': None, 'spell': None, 'qualify': 'min', 'load': 'first'},
             {'path': 'file', 'order': None, 'spell': None, 'qualify': 'min', 'load': 'last'},
+            # cross-book references written [n]Sheet!A1 through a link table whose first
+            # entry is a file that cannot be read (LEGACY.XLS)
+            {'path': 'file', 'order': None, 'spell': None, 'qualify': 'min', 'links': 'numeric'},
         ]
         if thorough:
             variants += [{'path': 'dict', 'order': 3, 'spell': 3},
